@@ -4,7 +4,7 @@ From PB Require Import model.M_fill.
 Import ListNotations.
 
 (* ------------------------------------------------------------------ vectors *)
-Definition obs_at (v : vec) (p : nat) (x : Z) := nth_error v p = Some (Some x).
+Definition obs_at (v : vec) (p : nat) (x : val) := nth_error v p = Some (Some x).
 Definition nan_at (v : vec) (q : nat) := nth_error v q = Some None.
 
 Lemma ffill_from_length lim v : forall last d, length (ffill_from lim last d v) = length v.
@@ -442,3 +442,13 @@ Proof.
 Qed.
 Theorem nona_array_values value e lf : nona_array value e (map snd lf) = map snd (nona_f value e lf).
 Proof. unfold nona_array. now rewrite !nona_f_values, of_array_values. Qed.
+
+(* +-inf are observations like any other: a row holding one is not an all-NaN row *)
+Lemma all_nan_false r j (x : val) : nth_error r j = Some (Some x) -> all_nan r = false.
+Proof.
+  revert j. induction r as [|c r IH]; intros [|j] H; simpl in *; try discriminate.
+  - injection H as ->. reflexivity.
+  - destruct c; [reflexivity|]. simpl. now apply (IH j).
+Qed.
+Lemma masked_nan p : masked None p = all_nan (snd p).
+Proof. unfold masked, all_nan. induction (snd p) as [|c r IH]; simpl; [reflexivity|]. now rewrite IH; destruct c. Qed.
